@@ -25,7 +25,14 @@ def scratch(patch):
     os.makedirs(os.path.join(d, "src"))
     shutil.copytree(os.path.join(REPO, "src", "pptx"), os.path.join(d, "src", "pptx"), ignore=shutil.ignore_patterns("__pycache__"))
     os.symlink(os.path.join(REPO, "spec"), os.path.join(d, "spec"))
-    r = subprocess.run(["patch", "-p1", "-s", "-i", os.path.abspath(patch)], cwd=d, capture_output=True, text=True)
+    # only the library source is copied: hunks for other files (tests, docs) are dropped from the patch first
+    txt = open(patch).read()
+    parts = re.split(r"(?m)^(?=diff --git )", txt)
+    keep = [p_ for p_ in parts if not p_.startswith("diff --git ") or re.match(r"diff --git a/src/pptx/", p_)]
+    src_only = os.path.join(d, ".src-only.diff")
+    open(src_only, "w").write("".join(keep))
+    r = subprocess.run(["patch", "-p1", "-s", "-i", src_only], cwd=d, capture_output=True, text=True)
+    os.remove(src_only)
     if r.returncode:
         shutil.rmtree(d, ignore_errors=True)
         return None, (r.stdout + r.stderr).strip()[:200]
